@@ -457,6 +457,20 @@ func c07Check(a *artefacts, tier string, seed uint64, replay string) int {
 		}
 	}
 	sort.Strings(siteList)
+	// sites the rewriter instrumented but no run reached with two keys: an order dependence there cannot show
+	var notReached []string
+	if b, err := os.ReadFile(a.Report); err == nil {
+		var rp struct {
+			MapSites []string `json:"map_sites"`
+		}
+		if json.Unmarshal(b, &rp) == nil {
+			for _, sname := range rp.MapSites {
+				if mapSites[sname] < 2 {
+					notReached = append(notReached, sname)
+				}
+			}
+		}
+	}
 	wall := time.Since(t0).Seconds()
 	if len(samples) == 0 {
 		samples = append(samples, "none")
@@ -468,6 +482,7 @@ func c07Check(a *artefacts, tier string, seed uint64, replay string) int {
 		"samples":                                samples,
 		"pairs":                                  stats,
 		"map_sites_executed_with_2_or_more_keys": siteList,
+		"map_sites_instrumented_but_not_reached_with_2_keys": notReached,
 		"schedule_fingerprints":                  len(fps),
 		"runs_per_hour":                          int(float64(runs) / wall * 3600),
 		"simulated_time_ns":                      simNanos,
